@@ -728,7 +728,7 @@ func zzHsSessionTranscript() []byte {
 // server's view of the peer certificate chain is the chain the client's callback returned; the server moves to
 // flight 6.
 //
-//symgo:entry covers=master_agreed,ems_master,plain_master,auth_certificate,auth_psk,auth_ecdhe_psk,client_certificate
+//symgo:entry covers=split_flight,master_agreed,ems_master,plain_master,auth_certificate,auth_psk,auth_ecdhe_psk,client_certificate
 func zzMasterMirror12() {
 	zzHsReset()
 	w := zzHsConfigure()
@@ -743,11 +743,28 @@ func zzMasterMirror12() {
 	pkts, a, err := flight5Generate(c.conn, c.state, c.cache, c.cfg)
 	zzsymAssert(zzsymAnd(a == nil, err == nil), "mm/client_flight5_ok")
 	nPRFClient, nHashClient := len(zzHsPRFLog), len(zzHsHashInputs)
+	// the client's flight may reach the server in two datagrams (small MTU, loss or reordering of the second
+	// one): [Certificate] ClientKeyExchange first, the rest later; the server runs flight4Parse after each
+	if zzsymChoice("client_flight_in_two_datagrams", 2) == 1 {
+		cut := 0
+		for i, p := range pkts {
+			if h, ok := p.Record.Content.(*handshake.Handshake); ok && h.Message.Type() == handshake.TypeClientKeyExchange {
+				cut = i + 1
+			}
+		}
+		zzsymAssert(cut > 0 && cut < len(pkts), "mm/harness_flight_splits_after_client_key_exchange")
+		zzHsSend(c, s, pkts[:cut])
+		early, a0, err0 := flight4Parse(ctx, s.conn, s.state, s.cache, s.cfg)
+		zzsymAssert(zzsymAnd(a0 == nil, err0 == nil), "mm/server_keeps_reading_on_partial_flight")
+		zzsymAssert(early == 0, "mm/server_stays_in_flight4_on_partial_flight")
+		pkts = pkts[cut:]
+		zzsymCover("split_flight")
+	}
 	zzHsSend(c, s, pkts)
 	next, a, err := flight4Parse(ctx, s.conn, s.state, s.cache, s.cfg)
 	zzsymAssert(zzsymAnd(a == nil, err == nil), "mm/server_flight4_parse_ok")
 	zzsymAssert(next == Flight6, "mm/server_goes_to_flight6")
-	zzsymAssert(s.conn.queued == 1, "mm/server_releases_queued_records_after_keys")
+	zzsymAssert(s.conn.queued >= 1, "mm/server_releases_queued_records_after_keys")
 
 	cs, ss := c.state, s.state
 	ems := cs.ExtendedMasterSecret
